@@ -64,12 +64,13 @@ def ssh1_crc32(data):
     return (zlib.crc32(data, 0xffffffff) ^ 0xffffffff) & 0xffffffff
 
 
-def frame1(ptype, data):
-    """SSH-1 packet: length(4) | padding(1..8) | type(1) | data | crc32(4)."""
+def frame1(ptype, data, padbyte=0):
+    """SSH-1 packet: length(4) | padding(1..8) | type(1) | data | crc32(4).  The CRC covers padding and body; `padbyte` seeds the
+    padding (0: zero bytes; anything else: distinct non-zero bytes, as a real peer's random padding would be)."""
     body = bytes([ptype]) + data
     length = len(body) + 4
     padlen = 8 - length % 8
-    pad = b'\x00' * padlen
+    pad = b'\x00' * padlen if not padbyte else bytes(((padbyte + 37 * i) % 255) + 1 for i in range(padlen))
     crc = ssh1_crc32(pad + body)
     return u32(length) + pad + body + u32(crc)
 
